@@ -1,5 +1,5 @@
 from pyvc.contracts import contract
-from .common import type_options, type_bads_state, inv_bads
+from .common import type_options, type_bads_state, inv_bads, inv_c04, INC, MIN, LOGMAP, DET, LOG_GROWS
 from .bads_optimize import c10
 from .function_logger import wf_at
 
@@ -32,6 +32,14 @@ def _(c):
         "calls_counted": "ghost.n_calls - old(ghost.n_calls) == fc - old(fc) and nY >= old(nY)",
         "no_failure": "not truthy(ghost.target_raised)",
         "logger_wf": wf_at("self.function_logger"),
+        # C04: the best polled point so far is a logged evaluation and no logged value is below it
+        "c04_best_logged": "implies(" + DET + ", " + INC("u_poll_best", "y_poll_best") + " and f_poll_best == y_poll_best and f_sd_poll_best == 0)",
+        "c04_best_minimal": "implies(" + DET + ", " + MIN("y_poll_best") + ")",
+        "c04_log_maps_back": LOGMAP,
+        "c04_log_grows": LOG_GROWS,
+        "c04_state_kept": "self.fval == old(self.fval) and self.yval == old(self.yval) and self.fsd == old(self.fsd) and "
+                          "self.optim_state['uncertainty_handling_level'] == old(self.optim_state['uncertainty_handling_level']) and "
+                          "truthy(self.function_logger.he_noise_flag) == truthy(old(self.function_logger.he_noise_flag))",
         "budget": "implies(old(fc) < B_, fc <= B_) and fc >= old(fc) and implies(old(fc) >= B_, fc == old(fc))",
     }, variant=["2 * self.D - poll_count"])
     # --- C13 top-level clauses, taken from the property statement -------------------------------
@@ -51,6 +59,11 @@ def _(c):
     c.ens("points_kept", "nY >= old(nY)", props=["C03"])
     c.ens("options_kept", "self.options['search_n_try'] == old(self.options['search_n_try']) and B_ == old(B_) and "
           "self.options['max_iter'] == old(self.options['max_iter']) and cap == old(cap)")
+    c.req("sloppy", "truthy(self.options['sloppy_improvement'])", props=["C04", "C19"])
+    c.req("u_is_best", "implies(" + DET + ", pteq(pt(self.u), pt(self.u_best)))", props=["C04", "C19"])
+    c.ens("u_is_best", "implies(" + DET + ", pteq(pt(self.u), pt(self.u_best)))", props=["C04", "C19"])
+    inv_c04(c)
+    c.ens("level_kept", "self.optim_state['uncertainty_handling_level'] == old(self.optim_state['uncertainty_handling_level'])")
     c10(c)
     c.ens("controller_untouched", "self.optim_state['search_count'] == old(self.optim_state['search_count']) and "
           "self.search_success == old(self.search_success)", props=["C03"])
